@@ -8,7 +8,7 @@ from functools import partial
 from typing import TYPE_CHECKING
 
 # Third Party Imports
-from numpy import asarray, ones_like, spacing, zeros
+from numpy import asarray, finfo, ones_like, spacing, zeros
 from scipy.integrate import solve_ivp
 
 # Local Imports
@@ -53,6 +53,15 @@ def checkEarthCollision(r_norm: float):
     if r_norm < Earth.radius + Earth.atmosphere:
         msg = "An RSO is within 100km of Earth surface"
         resonaateLogWarning(msg)
+
+
+RESTART_RESOLUTION = 2 * finfo(float).resolution
+"""``float``: smallest step past an event time at which integration restarts.
+
+The scheduled event functions treat any time within ``finfo(float).resolution`` of their event time as the
+event itself, so a restart closer than that (``spacing(t)`` for ``t`` below about 8 s) would fire the same
+event again.
+"""
 
 
 class Celestial(Dynamics, metaclass=ABCMeta):
@@ -214,7 +223,7 @@ class Celestial(Dynamics, metaclass=ABCMeta):
             )
 
             # Retrieve final time, this should auto-exit the loop if fully-integrated
-            initial_time = solution.t[-1] + spacing(solution.t[-1])
+            initial_time = solution.t[-1] + max(spacing(solution.t[-1]), RESTART_RESOLUTION)
 
         # Return final state from the solver
         return (
@@ -332,7 +341,7 @@ class Celestial(Dynamics, metaclass=ABCMeta):
             # [NOTE]: Need to increment time a tiny bit, so events don't re-trigger.
             # This also protects events that occur on a timestep. The event is applied
             # at the end of the previous timestep, rather than the beginning of current
-            current_time += spacing(current_time)
+            current_time += max(spacing(current_time), RESTART_RESOLUTION)
 
             # Save states to output variable, checks for case where event occurs before times[1]
             final_states[..., num_times : num_times + n_t] = states
